@@ -82,6 +82,11 @@ func (s scen) argsSource() string {
 		// every wait() on a failed thread raises its error: also after another waiter has caught it, whichever
 		// way that waiter called wait (the method value handed to try, or a call inside a function)
 		return "func boom(a, b) { return [a][b] }\n" + start("boom", "1, 5", "t") + "r1 := try(t.wait, func(e) { return \"caught1\" })\nr2 := try(func() { return t.wait() }, func(e) { return \"caught2\" })\nr3 := try(t.wait, func(e) { return \"caught3\" })\ngot(\"w\", [r1, r2, r3])\n\"done\"\n"
+	case "closure-factory":
+		// two closures made by one function literal, each over its own variable, each started by the same spawn
+		// form: every thread runs the closure it was started on (what is remembered per function literal is
+		// shared by all closures made from it)
+		return "func mk(k) { n := k * 10\n return func(a, b) { n = n + a\n return n } }\n" + start("mk(1)", "1, 0", "t1") + "got(\"w\", " + wait("t1") + ")\n" + start("mk(2)", "2, 0", "t2") + start("mk(3)", "3, 0", "t3") + "got(\"w\", [" + wait("t2") + ", " + wait("t3") + "])\n\"done\"\n"
 	case "panic-frames", "panic-operands", "panic-builtin":
 		// the spawned call ends in a Go panic - it runs out of frames, out of operand stack, or a builtin panics:
 		// that is the call's error, wait() raises it (every time) and a result is never invented
@@ -215,6 +220,7 @@ func (s scen) judge(x *dsched.Exec, st *state) (violation, key string) {
 			"wide-helper":      `"n":[10, 20, 30] "w":[12, 22, 32]`,
 			"nested-spawn":     `"n":7 "w":14`,
 			"nested-go":        `"w":5 "n":[1, 2]`,
+			"closure-factory":  `"w":11 "w":[22, 33]`,
 			"panic-frames":     `"w":["caught1", "caught2"]`,
 			"panic-operands":   `"w":["caught1", "caught2"]`,
 			"panic-builtin":    `"w":["caught1", "caught2"]`,
@@ -325,6 +331,9 @@ func scenarios(thorough bool) []scen {
 		out = append(out, scen{Spawn: sp, Args: "nested-spawn"}, scen{Spawn: sp, Args: "nested-go"})
 	}
 	out = append(out, scen{Spawn: "spawn", Args: "error-wait-twice"}, scen{Spawn: "fnspawn", Args: "error-wait-twice"})
+	for _, sp := range spawns {
+		out = append(out, scen{Spawn: sp, Args: "closure-factory"})
+	}
 	out = append(out, scen{Spawn: "spawn", Args: "panic-frames"}, scen{Spawn: "fnspawn", Args: "panic-frames"}, scen{Spawn: "spawn", Args: "panic-operands"},
 		scen{Spawn: "fnspawn", Args: "panic-operands"}, scen{Spawn: "spawn", Args: "panic-builtin"})
 	if !thorough {
